@@ -1862,6 +1862,8 @@ impl Index<usize> for Vec3A {
     type Output = f32;
     #[inline]
     fn index(&self, index: usize) -> &Self::Output {
+        // the register has four lanes; only the first three belong to the value
+        assert!(index < 3, "index out of bounds");
         &self.0[index]
     }
 }
@@ -1869,6 +1871,7 @@ impl Index<usize> for Vec3A {
 impl IndexMut<usize> for Vec3A {
     #[inline]
     fn index_mut(&mut self, index: usize) -> &mut Self::Output {
+        assert!(index < 3, "index out of bounds");
         &mut self.0[index]
     }
 }
